@@ -38,6 +38,7 @@ ASSUMPTIONS = [
 
 SRV = 'bumble.gatt_server.Server'
 MAY_RAISE = {'read_value', 'write_value'}
+LISTENER_CALLS = {'on_att_mtu_update'}  # emit an event to application listeners from inside a request handler
 
 
 def _is_task_wrapped(fn) -> bool:
@@ -53,10 +54,12 @@ class RespCount(paths.Domain):
     def may_raise(self, call):
         if call_attr(call) in MAY_RAISE:
             return 'ATT_Error'
+        if call_attr(call) in LISTENER_CALLS:
+            return 'Exception'  # runs application listeners
         return None
 
     def is_subclass(self, tag, name):
-        return tag == name or (tag == 'ATT_Error' and name in ('ProtocolError', 'BaseError'))
+        return tag == name or (tag == 'ATT_Error' and name in ('ProtocolError', 'BaseError', 'Exception')) or (tag == 'Exception' and name == 'BaseException')
 
 
 def opcodes(p):
